@@ -4,6 +4,7 @@ Dispatch of line-protocol requests to model / spec functions.
 import JsonbModel.Driver.Wire
 import JsonbModel.De
 import JsonbModel.Ser
+import JsonbModel.Driver.AccessOps
 
 namespace Jsonb.Driver
 open Jsonb.Wire
@@ -39,6 +40,9 @@ def step (line : String) : String :=
   | ["spec:encinto", p, v] => withHex p fun p => withTree v fun v =>
       if JV.goodTop v then "ok " ++ hexOfBytes (p ++ JV.encodeSpec v) else "skip"
   | ["good", v] => withTree v fun v => showBool (JV.goodTop v)
-  | _ => badReq
+  | req =>
+    match accessStep req with
+    | some r => r
+    | none => badReq
 
 end Jsonb.Driver
